@@ -17,6 +17,9 @@ for op, pres, what, fn in (
     for i, pre in enumerate(pres):
         E("c01_%s_%s" % (op, pre), ["C01", "C08", "C06"], what + "; pre-state: " + PRE[pre], ["StorageEngine::" + fn],
           "pre-state content symbolic (2 bytes), argument bytes symbolic; unwind 5-8", tier="quick" if i < 2 else "thorough")
+for pre in ("absent", "str"):
+    E("c01_append_empty_" + pre, ["C01", "C08"], "APPEND k \"\" (empty value): a missing key is created as an empty string (reply 0, watchers notified), a string keeps its bytes (reply = length); pre-state: " + PRE[pre],
+      ["StorageEngine::append"], "pre-state content symbolic (2 bytes), appended value empty; unwind 5")
 INTC = ["Value::integer / Value::as_integer -> abstract round-tripping 8-byte codec (std i64 Display/FromStr on symbolic values is trusted, not encoded)"]
 K("c01_incrby_int", "eng", ["C01", "C08", "C06"], tier="quick", timeout=900,
   desc="INCRBY on an integer value: ALL current values x ALL increments (i64 x i64): result = checked_add, overflow refused without effect, watchers notified", encodes=["StorageEngine::incr_by"], bounds="cur, inc full-width symbolic i64; unwind 10", stubs=STD_STUBS + INTC)
